@@ -1,6 +1,7 @@
 """C13: the analysis depends on structure, not on layout.  Node positions are affine functions of symbolic
 layout parameters; the real extractor / names_at must give every read the same alternatives as under the
 canonical layout."""
+import os
 import random
 
 from props import tprops
@@ -63,7 +64,33 @@ def select(tier, seed):
     return named + enum[:20 if tier == 'quick' else 120]
 
 
+HX = os.path.join(runner.VERIF, 'harness', 'h_c13x.py')
+
+
+def xsetup():
+    root = os.path.join(runner.WORK, PID, 'proj')
+    os.environ['VERIF_C13_ROOT'] = root
+    h = runner.load_module(HX, 'h_c13x_native')
+    h.materialise(root)
+    return h
+
+
+def replay_x(args):
+    import logging
+    logging.disable(logging.CRITICAL)
+    h = xsetup()
+    bad = h.problems(*args)
+    if not bad:
+        return {'violated': False}
+    text, cur = h.build(*args)
+    return {'violated': True, 'known': None,
+            'what': 'C13 (definitions in another module): %s\n--- c13lib.py\n%s--- edited file, cursor %r\n%s'
+                    % ('; '.join(bad), h.LIB['c13lib.py'], cur, text), 'replay': {'x_args': list(args)}}
+
+
 def replay(q, args, kwargs):
+    if q.meta.get('h') == 'x':
+        return replay_x(args)
     shape = tharness.shape_by_name(q.meta['shape'])
     H = lharness.LH(shape.name, q.meta['cap'])
     case, nums = args[0], list(args[1:])
@@ -119,6 +146,15 @@ def run(tier, seed):
         if H.ncases():
             qs.append(Query(sh.name + '__twin', src(sh, cap, H.ncases()), 'check_twin', 'twin', 60,
                             meta={'shape': sh.name, 'cap': cap}))
+    xsetup()
+    xs = open(HX).read()
+    from props.simple import copy_fn
+    for form in range(4):
+        new = 'crossfile_form%d' % form
+        qs.append(Query(new, xs + '\n\n' + copy_fn(xs, 'check', new, 'form == %d' % form), new, 'main', 300, per_path=60,
+                        meta={'h': 'x'}, label='E'))
+    qs.append(Query('crossfile__twin', xs + '\n\n' + copy_fn(xs, 'check', 'check__twin', 'name == 0 and form == 0 and k == 0 and pad == 0 and brk == 0', twin=True),
+                    'check__twin', 'twin', 60, meta={'h': 'x'}))
     runner.run_queries(PID, qs)
     rep.absorb(qs, replay)
     rep.validation['layout_model_vs_real_parser_points'] = nval
@@ -130,6 +166,8 @@ def run(tier, seed):
                   'symbolic (S): blank/comment lines before each of the first %d physical lines (0..2), indentation width 1..8, '
                   'continuation indent 0..8, extra spaces after separators 0..2 -- every node position is an affine '
                   'expression of these' % NB,
+                  'companion (E): go-to-definition on a read of 7 names defined in another project module (positions on lines 1-9, columns 0-10) through 4 import forms, '
+                  'with 0..9 blank/comment lines before the read, 0-2 statements joined in front of it and the read on a continuation line or not (1680 layouts): the answer is the binding in the other file in every layout',
                   'def/class/import header layout is C11; comments inside expressions outside']
     rep.assumptions = ['node positions follow the affine layout model of vlib/layout.py, derived from and validated against '
                        'the real parser on every run (and on every candidate)',
@@ -144,6 +182,9 @@ def run(tier, seed):
 
 
 def replay_file(obj):
+    if 'x_args' in obj:
+        from props.simple import report_violation
+        return report_violation(PID, replay_x(obj['x_args']))
     shape = tharness.shape_by_name(obj['shape'])
     naming = {int(k): v for k, v in obj['naming'].items()}
     res, problems = lharness.native_compare(shape, naming, obj['canonical'], obj['relaid'])
